@@ -630,6 +630,14 @@ def interrupted_creation_is_recoverable(ctx, rid):
                     for pl in rvalue_places(dd[3]):
                         if pl is not None:
                             work_.append(pl["l"])
+                elif dd[0] == "call" and any(re.fullmatch(r"(core::cmp::PartialEq|<.* as core::cmp::PartialEq(<.*>)?>)::(eq|ne)|core::intrinsics::discriminant_value|core::mem::discriminant", q) for q in callee_paths(dd[2])):
+                    # `decision == Decision::Create` on a two-way enum (derived PartialEq): the value is what is compared
+                    for a_ in dd[2]["args"]:
+                        if op_local(a_) is not None:
+                            work_.append(op_local(a_))
+                            bl_ = ba.base_local_of_ref(op_local(a_))
+                            if bl_ is not None:
+                                work_.append(bl_)
         return seen_
 
     def depends_on_query(l, depth=3, visited=None):
@@ -643,8 +651,8 @@ def interrupted_creation_is_recoverable(ctx, rid):
         # control dependence: the value is a constant / variant chosen by an earlier test - look at what that test reads
         def_blocks = {dd[1] for x in roots for dd in ba.defs.get(x, []) if dd[0] == "stmt" and dd[3]["k"] in ("agg", "use") and not [pl for pl in rvalue_places(dd[3]) if pl is not None]}
         for s2 in sorted(ba.live):
-            if s2 == sw or not ba.dominates(s2, sw):
-                continue
+            if s2 == sw or not (ba.dominates(s2, sw) or ba.path([s2], [sw], incl=True) is not None):
+                continue        # (a test inside an earlier conditional block may choose the value, too: `if probing { if tables == 0 { decision = Create } }`)
             t2 = I.blocks[s2]["term"]
             if t2["t"] != "switch":
                 continue
@@ -1169,6 +1177,9 @@ def lock_file_opened_once(ctx, rid):
     prog = ctx.prog
     OPEN = r"std::fs::File::(open|create|create_new|options)|std::fs::OpenOptions::open|std::fs::read|std::fs::read_to_string|std::fs::metadata"
     lm = [b for k, b in prog.bodies.items() if k.startswith("state::LockManager::") or k.startswith("<state::LockManager as")]
+    if "state::LockManager::open" not in prog.bodies:
+        # the one opener was merged into its caller (or split up): the who-may-open table has lost its anchor
+        raise AnchorError("%s: state::LockManager::open not found: cannot tell the one legitimate open of the lock file from a second one" % rid)
     if not ctx.floor(rid, "LockManager bodies", len(lm), 2):
         return
     # (a) no LockManager method other than `open` opens a file
